@@ -9,7 +9,7 @@
    is replaced by [C03_trexp_is_expm_partial] (one-parameter-subgroup law Phi(a+b) = Phi(a) Phi(b), Phi(0) = I on a
    unit twist, rotation block and translation block V(theta)); uniqueness of the one-parameter subgroup with a
    given generator and the series itself are not formalised.  Floating-point conditioning is measured by the oracle. *)
-From Coq Require Import Reals ZArith Lra.
+From Coq Require Import Reals ZArith Lra List.
 From SM Require Import Base.Ops Base.Lin Base.RInst Base.RLin Model.C03_ExpLog Model.C03_Lemmas Model.C05_Trig Model.C03_Log.
 From SMgen Require Import Consts_C03 Traces_C03.
 Open Scope R_scope.
@@ -80,6 +80,30 @@ Qed.
 Print Assumptions C03_exp_theta_form.
 Example C03_exp_theta_form_nonvacuous : normsq3 Rops (1, 0, 0) = 1 /\ thv Rops (k_zero C03_thr) <= 1.
 Proof. unfold thv, C03_thr. autounfold with smlin; sm_simpl. cbn. split; [ring | lra]. Qed.
+
+(* ---- class layer: the vector-theta branch of Twist3.exp on ONE twist, `[trexp(S * t) for t in theta]` (model twist3_exp_vec,
+        tied to Twist3.exp by the numeric correspondence m_twist3_exp_theta).  On a unit rotational twist every element is the
+        unit-twist exponential at t = trexp(S, t); on a prismatic twist (w = 0, ANY length of v) element t is the translation by
+        t v -- so it is never the identity for t |v| above the zero threshold (the twist must not be normalised through theta()). ---- *)
+Theorem C03_twist_exp_vector_theta : forall (tw : V6 R) (thetas : list R),
+  (let '(_,_,_,w0,w1,w2) := tw in normsq3 Rops (w0,w1,w2) = 1) ->
+  Forall (fun t => thv Rops (k_zero C03_thr) <= t) thetas ->
+  twist3_exp_vec Rops C03_thr tw thetas = map (fun t => Ok (trexp_unit Rops C03_thr tw t)) thetas /\
+  twist3_exp_vec Rops C03_thr tw thetas = map (trexp_se3_th Rops C03_thr tw) thetas.
+Proof. intros. apply twist3_exp_vec_unit; auto using C03_thr_ok. Qed.
+Print Assumptions C03_twist_exp_vector_theta.
+
+Theorem C03_twist_exp_prismatic : forall v0 v1 v2 t : R,
+  0 < t -> thv Rops (k_zero C03_thr) <= t * norm3 Rops (v0,v1,v2) ->
+  twist3_exp_elem Rops C03_thr (v0,v1,v2,0,0,0) t = Ok (rt2tr3 Rops (I33 Rops) (v0*t, v1*t, v2*t)).
+Proof. intros. apply twist3_exp_elem_prismatic; auto using C03_thr_ok. Qed.
+Print Assumptions C03_twist_exp_prismatic.
+Example C03_twist_exp_prismatic_nonvacuous : 0 < 2 /\ thv Rops (k_zero C03_thr) <= 2 * norm3 Rops (3,0,4).
+Proof.
+  split; [lra|]. replace (norm3 Rops (3,0,4)) with 5.
+  - unfold thv, C03_thr. cbn. lra.
+  - symmetry. autounfold with smlin. sm_simpl. replace (3*3 + 0*0 + 4*4) with (5*5) by ring. apply sqrt_square. lra.
+Qed.
 
 (* ---- (2) exp(log R) = R on BOTH non-identity branches of the logarithm of fix 84bd1d7 (angle atan2(|vex A|, c),
         half-turn axis from the symmetric part), and the rotation magnitude of the log is in (0, pi].
